@@ -226,6 +226,19 @@ class Session:
             self.hit('call-' + t)
             self.process_queue()
             resp = self.h.cmd('PUMP')
+        elif kind == 'peer' and op[2] == 'sigserial':
+            # Two behaviours satisfy the property: the library takes the signal for the call's reply (what it does: calls
+            # are paired by REPLY_SERIAL alone) and completes the call with it, once; or it ignores the field on a
+            # non-reply and the call stays outstanding WITH its time-out.  The model follows whichever the implementation
+            # shows; what is excluded is the half-way state (neither completed nor able to time out), which the table
+            # invariant and the later clock advances expose.
+            i = op[1]
+            self.process_queue()
+            resp = self.h.cmd('PEER ' + self.peer_msg(i, 'sigserial'))
+            mo = re.search(r'pc%d=(\d+)/' % i, resp)
+            if mo and mo.group(1) == '1' and i in self.calls and self.calls[i]['state'] == 'pending':
+                self.complete(i, ('reply', 'sigserial'))
+            self.hit('signal-with-the-calls-serial')
         elif kind == 'peer':
             i, k = op[1], op[2]
             self.queued.append((i, k))
